@@ -25,6 +25,8 @@ def optimize_ttns(ttns: TTNS, ttno: TTNO, procedure=None):
         micro_e = optimize_recursion(ttns.root, ttns, ttno, ttne, m, percent)
         logger.info(f"Micro e: {micro_e}")
         e_list.append(micro_e[-1])
+    # the last two-site update may have truncated the state
+    ttns.normalize("ttns_and_coeff")
     return e_list
 
 
